@@ -2,7 +2,7 @@
     case = (0 init readers steps sched kcs flavours)
       init    : value of the Root store (see harness/stores: Root/Mid/Sub/Item/Leaf)
       readers : list of accessor chains; chain = list of (kind arg): 0 field, 1 unwrap,
-                2 at_unkeyed, 3 keyed item
+                2 at_unkeyed, 3 keyed item, 4 hand on type-erased: (4 0) ArcField, (4 1) Field
       steps   : list of (op chain value): 0 set, 1 patch, 2 report path(),
                 3 (chain-to-keyed-field keys): which live keys share a segment; which of
                 [keys] kept the segment of the previous report,
@@ -27,7 +27,8 @@ Definition as_step (s : sexp) : step :=
   | 0%Z => Fld (as_nat (nth_s 1 s))
   | 1%Z => Unw
   | 2%Z => Idx (as_nat (nth_s 1 s))
-  | _ => Key (as_Z (nth_s 1 s))
+  | 3%Z => Key (as_Z (nth_s 1 s))
+  | _ => Era (as_bool (nth_s 1 s))
   end.
 Definition as_chain (s : sexp) : list step := map as_step (as_list s).
 
